@@ -14,6 +14,7 @@ import (
 
 type c14Stats struct {
 	cases, splits, pairs, dpkgChecked int
+	pkgs                              int
 	parsed, verbatim                  int
 	distinct                          map[string]struct{}
 	samples                           []string
@@ -121,6 +122,31 @@ func buildVersionOf(format string, version, pre, meta, release, epoch string) (m
 	return decodeVersionFields(format, buf.Bytes())
 }
 
+// pkgEvery: build packages for every n-th split case (1 while forced cases and the corpus run)
+var pkgEvery = 1
+
+func buildVersionSchemaOf(format, schema, version, pre, meta string) (m map[string]string, err error) {
+	defer func() {
+		if r := recover(); r != nil {
+			m, err = nil, fmt.Errorf("panic: %v", r)
+		}
+	}()
+	info := nfpm.WithDefaults(&nfpm.Info{
+		Name: "p", Arch: "amd64", Version: version, Prerelease: pre, VersionMetadata: meta, VersionSchema: schema,
+		Maintainer: "M <m@example.com>", Description: "d", MTime: time.Unix(1700000000, 0).UTC(),
+	})
+	info.RPM.BuildHost = "h"
+	p, err := nfpm.Get(format)
+	if err != nil {
+		return nil, err
+	}
+	var buf bytes.Buffer
+	if err := p.Package(info, &buf); err != nil {
+		return nil, err
+	}
+	return decodeVersionFields(format, buf.Bytes())
+}
+
 func dpkgLess(a, b string) (string, bool) {
 	if _, err := exec.LookPath("dpkg"); err != nil {
 		return "", false
@@ -192,6 +218,19 @@ func cmdC14(tier string, seed int64, out, statsOut, replay string) {
 				}
 			}
 		}
+		// what the packagers then write: the version field of a deb, an ipk and an rpm built from these settings
+		// (every eighth generated case, every forced and corpus case)
+		if pkgEvery > 0 && (st.splits%pkgEvery == 0) {
+			for _, format := range []string{"deb", "ipk", "rpm"} {
+				m, err := buildVersionSchemaOf(format, schema, v, pre, meta)
+				if err != nil || m == nil {
+					w.line("vpkg %s %s err", id, xs(format))
+					continue
+				}
+				w.line("vpkg %s %s ok %s %s %s %s %s", id, xs(format), xs(schema), xs(v), xs(pre), xs(meta), xs(m["Version"]))
+				st.pkgs++
+			}
+		}
 		st.splits++
 		st.cases++
 		if info.Version != v || v == "" {
@@ -217,6 +256,18 @@ func cmdC14(tier string, seed int64, out, statsOut, replay string) {
 		replayC14(f, w, st, emitSplit)
 	}
 	pick := func(l []string) string { return l[rng.Intn(len(l))] }
+	// forced: versions that are used as written (schema none, or not a semantic version) and start like a tag; explicit
+	// components a semantic-version library would not accept beside a component embedded in the version
+	fi := 0
+	for _, schema := range []string{"", "none", "semver"} {
+		for _, v := range []string{"v1.2.3", "v1.2.3.4", "v2024.01.15", "v1.02.3", "V1.2.3", "v7", "vista.3", "1.2.3.4", "v1.4.0+g1a2b3c4", "1.4.0-rc.1", "v1.4.0-rc.1+b7", "1.4.0"} {
+			for _, pm := range [][2]string{{"", ""}, {"nightly.2024.01.15", ""}, {"", "build_77"}, {"rc..1", ""}, {"a~b", "x+y"}, {"01", "001"}} {
+				fi++
+				emitSplit(fmt.Sprintf("f-%d", fi), schema, v, pm[0], pm[1])
+			}
+		}
+	}
+	pkgEvery = 8
 	for i := 0; i < nSplit; i++ {
 		v := genSemver(rng)
 		if rng.Intn(4) == 0 {
@@ -227,10 +278,10 @@ func cmdC14(tier string, seed int64, out, statsOut, replay string) {
 		}
 		pre, meta := "", ""
 		if rng.Intn(3) == 0 {
-			pre = pick([]string{"beta1", "rc.2", "alpha-3"})
+			pre = pick([]string{"beta1", "rc.2", "alpha-3", "nightly.2024.01.15", "rc..1", "pre_1"})
 		}
 		if rng.Intn(3) == 0 {
-			meta = pick([]string{"git5", "b.7"})
+			meta = pick([]string{"git5", "b.7", "build_77", "007"})
 		}
 		emitSplit(fmt.Sprintf("v-%d", i), pick([]string{"", "", "semver", "none", "bogus"}), v, pre, meta)
 	}
@@ -313,7 +364,7 @@ func cmdC14(tier string, seed int64, out, statsOut, replay string) {
 		}
 	}
 	w.close()
-	writeJSON(statsOut, map[string]any{"cases": st.cases, "splits": st.splits, "order_pairs": st.pairs, "dpkg_pairs": st.dpkgChecked,
+	writeJSON(statsOut, map[string]any{"cases": st.cases, "splits": st.splits, "order_pairs": st.pairs, "dpkg_pairs": st.dpkgChecked, "packages_built_for_their_version_field": st.pkgs,
 		"parsed_as_semver": st.parsed, "kept_verbatim": st.verbatim, "distinct": len(st.distinct), "distinct_nontrivial": len(st.distinct), "samples": st.samples})
 }
 
